@@ -10,7 +10,7 @@ import vlib
 from props import fam_pdb as F
 
 
-MANIFEST = {'technique': 'Coq proof (atom-site flatten/regroup inverse by induction) + differential check of row order + mmCIF/PDB round-trip oracles on gemmi', 'text': 'The PDB-vs-mmCIF oracle also writes both files from the ORIGINAL structure and compares the connections, so that a defect of one writer cannot hide by feeding the other route. Theorem C07_regroup_flatten: for every structure satisfying the stated well-formedness (distinct model numbers, adjacent chains differ, residue ids pairwise non-matching within a chain) reading the _atom_site rows written for it regroups to the same models/chains/residues/atoms; the precondition is shown necessary by a refuting witness (equal non-adjacent ids merge). Oracles on gemmi: structure -> mmCIF -> structure -> mmCIF byte-identical + structure equality x 17 output-group switches (names needing every quote style, multi-character chains, long residue names, negative/large numbers, several models); PDB route vs mmCIF route give the same structure. PARTIAL: entities, assemblies, connections, secondary structure, sequences, 9-digit number formatting and the PDB/mmCIF agreement are decided by the oracles only.', 'note': 'Trusted: Coq kernel; extraction; harness. No axioms. CIF quoting is property C01.'}
+MANIFEST = {'technique': 'Coq proof (atom-site flatten/regroup inverse by induction; sub-chain naming injective for all counters and chain names) + differential check of row order + mmCIF/PDB round-trip oracles on gemmi', 'text': 'The PDB-vs-mmCIF oracle also writes both files from the ORIGINAL structure and compares the connections, so that a defect of one writer cannot hide by feeding the other route. Theorem C07_regroup_flatten: for every structure satisfying the stated well-formedness (distinct model numbers, adjacent chains differ, residue ids pairwise non-matching within a chain) reading the _atom_site rows written for it regroups to the same models/chains/residues/atoms; the precondition is shown necessary by a refuting witness (equal non-adjacent ids merge). SUB-CHAINS (model of assign_subchain_names / assign_subchains in Pdb/Subchain.v, compared with gemmi on every run incl. runs of 1310 non-polymer residues): the suffix of the k-th non-polymer residue decodes back to k for EVERY k (base 36 of any length); chain name + x + suffix identifies chain name and residue class for every chain name (also names containing x); every non-polymer residue of a model gets a sub-chain of its own for any number of chains and residues, also when chains share a name. Oracles on gemmi: structure -> mmCIF -> structure -> mmCIF byte-identical + structure equality x 17 output-group switches (names needing every quote style, multi-character chains, long residue names, negative/large numbers, several models); PDB route vs mmCIF route give the same structure. PARTIAL: entity records, assemblies, connections, secondary structure, sequences, 9-digit number formatting and the PDB/mmCIF agreement are decided by the oracles only.', 'note': 'Trusted: Coq kernel; extraction; harness. No axioms. CIF quoting is property C01.'}
 
 def gen_lines(rng, quick):
     lines = []
@@ -27,6 +27,27 @@ def gen_lines(rng, quick):
     for _ in range(n // 2):
         lines.append('rows\t%d %d %d %d %d' % (rng.randrange(1, 2 ** 40), rng.choice([1, 2, 3]), rng.choice([1, 2, 4]),
                                                rng.choice([1, 3, 6]), rng.choice([0, 0, 1, 2, 3])))
+    # sub-chain naming (assign_subchains): chain names with 'x' / "xp" tails, repeated names, long runs of non-polymer
+    # residues that cross the boundaries of the numbering scheme (9|10, 45|46, 1305|1306, 46665|46666 in the thorough tier)
+    def hx(t):
+        return t.encode().hex() if t else '-'
+    names = ['A', 'B', 'Ax', 'Axp', 'x', 'AA', 'A1', 'Ax1', 'Ax0', 'B-2', 'xx', 'Axw', 'AxB']
+    for i in range(300 if quick else 6000):
+        nch = rng.choice([1, 1, 2, 3, 5])
+        toks = []
+        for _ in range(nch):
+            r = rng.random()
+            if r < 0.08:
+                run_len = rng.choice([9, 10, 11, 44, 45, 46, 47, 60, 1300, 1310] + ([] if quick else [46700]))
+                types = 'P' * rng.randint(0, 3) + 'N' * run_len + 'W' * rng.randint(0, 2)
+            elif r < 0.16:
+                types = ''.join(rng.choice('PPNNWBU') for _ in range(rng.randint(0, 6)))
+            else:
+                types = ''.join(rng.choice('PPPNNWB') for _ in range(rng.randint(0, 30)))
+            toks += [hx(rng.choice(names)), types or '-']
+        cmdl = '%d %s' % (nch, ' '.join(toks))
+        lines.append('subch\t' + cmdl)
+        lines.append('o_subch\t' + cmdl)
     return lines
 
 
